@@ -519,7 +519,7 @@ fn srv_limit_fixed_at_connect() {
 // ---------------------------------------------------------------------------------------------
 // S6: ClientConnection::read / enqueue_response on their own (C07 accounting, C13, C11)
 // ---------------------------------------------------------------------------------------------
-// @harness props=C07,C13,C11 props_thorough=C08,C10,C03 tiers=quick:K=0|K=1|K=2|K=3|K=4|K=5|K=13|K=14|K=15;thorough:K=0|K=1|K=2|K=3|K=4|K=5|K=13|K=14|K=15 unwind=6 cap=900 mem=2 covers=1
+// @harness props=C07,C13,C11,C10 props_thorough=C08,C03 tiers=quick:K=0|K=1|K=2|K=3|K=4|K=5|K=13|K=14|K=15;thorough:K=0|K=1|K=2|K=3|K=4|K=5|K=13|K=14|K=15 unwind=6 cap=900 mem=2 covers=1
 // @fn ClientConnection::read ClientConnection::enqueue_response ClientConnection::is_done
 // @stubs std::fmt::format
 // @claim ClientConnection::read for every outcome class of try_read: the requests handed to the caller are exactly the ones parsed (none after an error), the in-flight count grows by exactly their number and by nothing else (requests discarded by a parse error were never counted and are not subtracted), a parse error queues exactly one 400, pending output switches the connection to AwaitingOutgoing whether or not requests were yielded, end of stream closes it; then enqueue_response on that connection: count decremented by one, response queued unless the connection is closed; is_done <=> closed and nothing pending and count 0
